@@ -529,23 +529,32 @@ mod tests {
 pub mod verif {
     use super::*;
 
+    #[cfg(not(john_yu_sm9_core_verif_skip_consts))]
     pub const VERIF_SM9_S: u128 = SM9_S;
+    #[cfg(not(john_yu_sm9_core_verif_skip_consts))]
     pub const VERIF_SM9_LOOP_N: u128 = SM9_LOOP_N;
+    #[cfg(not(john_yu_sm9_core_verif_skip_consts))]
     pub const VERIF_SM9_A2: u128 = SM9_A2;
+    #[cfg(not(john_yu_sm9_core_verif_skip_consts))]
     pub const VERIF_SM9_A3: u128 = SM9_A3;
 
+    #[cfg(not(john_yu_sm9_core_verif_skip_pow))]
     pub fn fq12_pow_u128(x: &Fq12, e: u128) -> Fq12 {
         x.pow(e)
     }
+    #[cfg(not(john_yu_sm9_core_verif_skip_fexp))]
     pub fn final_exp_first_chunk(x: &Fq12) -> Option<Fq12> {
         x.final_exponentiation_first_chunk()
     }
+    #[cfg(not(john_yu_sm9_core_verif_skip_fexp))]
     pub fn final_exponentiation_last_chunk(x: &Fq12) -> Fq12 {
         x.final_exponentiation_last_chunk()
     }
+    #[cfg(not(john_yu_sm9_core_verif_skip_fexp))]
     pub fn final_exp_last_chunk(x: &Fq12) -> Fq12 {
         x.final_exp_last_chunk()
     }
+    #[cfg(not(john_yu_sm9_core_verif_skip_prep))]
     pub fn prepared_coeffs_len(p: &G2Prepared) -> usize {
         p.coeffs.len()
     }
